@@ -97,12 +97,14 @@ def _case(draw, targets=None, invalid=False, repeat=False):
             ops.append({"op": "remove", "section": n, "key0": k, "key": _ws(draw, k)})
             used.add((n, k))
         else:
-            sec = draw(st.sampled_from(["Pair", "Species", "Notes", "Pair"]))
+            sec = draw(st.sampled_from(["Pair", "Species", "Notes", "Pair", "Variables"]))
             if sec == "Pair":
                 k, val = "%s-%s" % (draw(st.sampled_from(["Xa", "Xb"])), draw(st.sampled_from(["Ya", "Yb"]))), \
                     "as.constant %d" % draw(st.integers(1, 9))
             elif sec == "Species":
                 k, val = "%s.charge" % draw(st.sampled_from(["Xa", "Xb", "Al"])), "%d" % draw(st.integers(-3, 3))
+            elif sec == "Variables":
+                k, val = draw(st.sampled_from(["unusedvar", "extra_v"])), "%d" % draw(st.integers(0, 9))
             else:
                 k, val = draw(st.sampled_from(["author", "comment"])), "text %d" % draw(st.integers(0, 9))
             if (sec, k) in used or any(nn == sec and "".join(kk.split()) == k for nn, kk, _ in keys):
@@ -111,7 +113,7 @@ def _case(draw, targets=None, invalid=False, repeat=False):
             used.add((sec, k))
     if invalid:
         why = draw(st.sampled_from(["override_missing_key", "override_missing_section", "remove_missing_key",
-                                    "add_existing", "add_existing_ws"]))
+                                    "add_existing", "add_existing_ws", "add_twice", "add_twice_ws"]))
         n, k, v = draw(st.sampled_from(keys))
         if why == "override_missing_key":
             bad = {"op": "override", "section": n, "key0": k + "_x", "key": k + "_x", "value": v}
@@ -119,14 +121,25 @@ def _case(draw, targets=None, invalid=False, repeat=False):
             bad = {"op": "override", "section": "Nowhere", "key0": k, "key": k, "value": v}
         elif why == "remove_missing_key":
             bad = {"op": "remove", "section": n, "key0": "zz" + k, "key": "zz" + k}
+        elif why in ("add_twice", "add_twice_ws"):
+            # the same new item added by two options: after the first addition it exists
+            first = {"op": "add", "section": "Pair", "key0": "Xq-Yq", "key": "Xq-Yq", "value": "as.constant 3"}
+            ops.append(first)
+            used.add(("Pair", "Xq-Yq"))
+            bad = {"op": "add", "section": "Pair", "key0": "Xq-Yq", "key": "Xq-Yq" if why == "add_twice" else "Xq - Yq",
+                   "value": "as.constant 4"}
+            bad["invalid"] = why
+            ops.append(bad)
+            bad = None
         elif why == "add_existing":
             bad = {"op": "add", "section": n, "key0": k, "key": k, "value": v}
         else:
             bad = {"op": "add", "section": n, "key0": k, "key": " " + k.replace("-", " - ").replace(",", " , ") + " ", "value": v}
-        if (bad["section"], bad["key0"]) in used:
-            bad = {"op": "override", "section": "Nowhere", "key0": k, "key": k, "value": v}
-        bad["invalid"] = why
-        ops.insert(draw(st.integers(0, len(ops))), bad)
+        if bad is not None:
+            if (bad["section"], bad["key0"]) in used:
+                bad = {"op": "override", "section": "Nowhere", "key0": k, "key": k, "value": v}
+            bad["invalid"] = why
+            ops.insert(draw(st.integers(0, len(ops))), bad)
     if repeat:
         ov = [o for o in ops if o["op"] == "override" and o["section"] in ("Pair", "EAM-Embed", "EAM-Density")]
         if ov:
@@ -283,7 +296,7 @@ def check_case(case):
         else:
             got = anymodel.outcome_from_parser(mk, target)
         if got[0] != "config_error":
-            v.append(("invalid_operation_not_rejected:%s" % [o.get("invalid") for o in ops if o.get("invalid")][0],
+            v.append(("invalid_operation_not_rejected:%s" % ([o.get("invalid") for o in ops if o.get("invalid")] + ["?"])[0],
                       "%s -> %r\n%s" % (reason, got[:1] + (got[1][:300],), ctx)))
         return {"v": v, "cls": cls, "nt": True}
     etext = anymodel.text_of(edited)
